@@ -143,6 +143,33 @@ def number_tag(rng, c):
     return rng.choice(cands) if cands else None
 
 
+def typed_family():
+    """deterministic programs: one measurement combined with a constant of every number type in every operand position
+    (numbers large enough that fixed-width integer arithmetic or a narrow float would show)"""
+    out = []
+    for tag in NUMBER_TYPES:
+        for c in (300, 10, 3, 70000, 1):
+            try:
+                if tag == "bool" and c != 1:
+                    continue
+                if tag != "Fraction" and tag != "bool":
+                    import numpy as np
+                    if float(getattr(np, tag[3:])(c)) != float(c):
+                        continue
+            except (OverflowError, ValueError):
+                continue
+            k = ["const", c, tag]
+            x = ["obj", 0]
+            for st in (["bin", "div", x, k], ["bin", "div", k, x], ["bin", "mul", x, k], ["bin", "sub", k, x],
+                       ["bin", "log2", k, x], ["bin", "log2", x, k], ["bin", "pow", x, ["const", min(c, 3), tag]]):
+                if st[1] == "log2" and c == 1:
+                    continue
+                if st[1] == "pow" and tag == "bool":
+                    continue
+                out.append(([["meas", 2.5, 0.25], st, ["bin", "mul", ["obj", 1], ["obj", 1]]], []))
+    return out
+
+
 class World:
     """executes a program on the implementation, keeping python objects by model id"""
 
